@@ -13,7 +13,7 @@ func init() {
 	Specs["C20"] = &Spec{
 		ID: "C20",
 		Rule: "scenario = (list length n, success/error pattern); every interleaving of the real AsyncMapReduce's workers, reducer and caller is enumerated " +
-			"(unbounded with state caching; additionally preemption-bounded without caching as a cross-check); plus every pattern with >=2 failures where all failures carry the same message; plus long lists (n = 17, 33, 40, 65, 129, 257, 1025) under the default schedule only, as size-threshold probes; a scenario is non-trivial if it has >1 execution",
+			"(unbounded with state caching; additionally preemption-bounded without caching as a cross-check); plus every pattern with >=2 failures where all failures carry the same message; plus results of a nillable type with every pattern of nil results (n<=3), and two calls whose failing item returns one stored ErrorList value with spare capacity; plus long lists (n = 17, 33, 40, 65, 129, 257, 1025) under the default schedule only, as size-threshold probes; a scenario is non-trivial if it has >1 execution",
 		Assumptions: []string{
 			"rewrite rules of vrewrite and channel/WaitGroup semantics of vrt (self-tests in setup)",
 			"state caching assumes data-race freedom of un-hooked memory; harness observations are made visible with vrt.Touch",
@@ -55,6 +55,28 @@ func init() {
 					})
 				}
 			}
+			// results of a nillable type, some of them nil without an error; errors that are stored ErrorList values
+			for n := 1; n <= 3; n++ {
+				for mask := 0; mask < 1<<n; mask++ {
+					for nm := 1; nm < 1<<n; nm++ {
+						if nm&mask != 0 {
+							continue
+						}
+						out = append(out, Scenario{
+							Name:  fmt.Sprintf("n=%d errmask=%0*b nilmask=%0*b pointer results, all-interleavings cached", n, n, mask, n, nm),
+							Atoms: []string{fmt.Sprintf("n%d", n), "nil-results"},
+							Opt:   explore.Options{Bound: -1, Cache: true, StartBranch: true},
+							H:     c20HarnessPtr(n, mask, nm),
+						})
+					}
+				}
+			}
+			out = append(out, Scenario{
+				Name:  "two calls whose first item fails with one stored ErrorList value (spare capacity), all-interleavings cached",
+				Atoms: []string{"n2", "stored-error-list"},
+				Opt:   explore.Options{Bound: -1, Cache: true, StartBranch: true},
+				H:     c20HarnessStoredErrors(),
+			})
 			for n := 2; n <= crossN; n++ {
 				for mask := 0; mask < 1<<n; mask++ {
 					out = append(out, Scenario{
